@@ -30,8 +30,11 @@ type c11Result struct {
 	paras  []control.Paragraph
 	err    error
 	signer *openpgp.Entity
-	built  bool // the reader/decoder was constructed
-	task   *rt.Task
+	// signerEnd: what Signer() says once reading is over (after EOF, or after the error)
+	signerEnd    *openpgp.Entity
+	signerEndSet bool
+	built        bool // the reader/decoder was constructed
+	task         *rt.Task
 }
 
 func c11Read(r *rt.Run, api string, data []byte, keyring *openpgp.EntityList) c11Result {
@@ -55,6 +58,7 @@ func c11Read(r *rt.Run, api string, data []byte, keyring *openpgp.EntityList) c1
 			}
 			res.built = true
 			res.signer = pr.Signer()
+			defer func() { res.signerEnd, res.signerEndSet = pr.Signer(), true }()
 			if api == "All" {
 				res.paras, res.err = pr.All()
 				return
@@ -84,6 +88,7 @@ func c11Read(r *rt.Run, api string, data []byte, keyring *openpgp.EntityList) c1
 			}
 			res.built = true
 			res.signer = dec.Signer()
+			defer func() { res.signerEnd, res.signerEndSet = dec.Signer(), true }()
 			for i := 0; i < 100000; i++ {
 				var o rawPara
 				err := dec.Decode(&o)
@@ -199,7 +204,7 @@ func runC11(r *rt.Run, tier string) {
 	if faulty {
 		r.Stats["config.faulty"]++
 		N := len(armored)
-		const nSplice, nOther = 5, 6
+		const nSplice, nOther = 5, 9
 		total := 4*N + nSplice + nOther
 		fp := faultIndex(r, total, func() int {
 			switch t.Weighted([]int{6, 3, 2}, "fault.kind") {
@@ -328,6 +333,11 @@ func runC11(r *rt.Run, tier string) {
 				data = append(append([]byte{}, armored[:sigStart]...), alt[as:]...)
 				fault = "signature-over-other-text"
 				mustFail, either = true, false
+			case 6, 7, 8: // a complete signature armor whose body is empty: no signature at all
+				body := []string{"\n", "\n=twTO\n", "Version: GnuPG v2\n\n"}[fp-4*N-nSplice-6]
+				data = append(append([]byte{}, armored[:sigStart]...), []byte("-----BEGIN PGP SIGNATURE-----\n"+body+"-----END PGP SIGNATURE-----\n")...)
+				fault = "signature-armor-with-empty-body"
+				mustFail, either = true, false
 			case 3:
 				krKind = 2
 				fault = "keyring-without-signer"
@@ -445,6 +455,12 @@ func runC11(r *rt.Run, tier string) {
 		if !success || res.signer == nil {
 			r.Violate("C11/genuine-document-rejected", key, "document signed by a keyring key: err=%v signer-reported=%v", res.err, res.signer != nil)
 		}
+	}
+	if success && res.signer != nil && res.signerEndSet && !sameEntity(res.signerEnd, res.signer) {
+		r.Violate("C11/signer-changes-while-reading", api, "Signer() named the signing key before the paragraphs were read; after reading to the end it says %v", map[bool]string{true: "nobody", false: "somebody else"}[res.signerEnd == nil])
+	}
+	if res.signer == nil && res.signerEndSet && res.signerEnd != nil {
+		r.Violate("C11/signer-changes-while-reading", api+"/appears", "Signer() was nil when the reader was built and names a key after reading")
 	}
 	if success && res.signer != nil {
 		r.Probe("verification-succeeded")
